@@ -48,7 +48,7 @@ Section Domain.
         method does not record) *)
   Definition key_arg_ok (a : selarg) : bool :=
     match a with
-    | SStr x | SCol x => ref_ok x && negb (qspark (attr x))
+    | SStr x | SCol x | SItem x => ref_ok x && negb (qspark (attr x))
     | SAlias _ _ => false
     end.
   Definition sel_arg_ok_v (a : selarg) : bool :=
@@ -60,7 +60,9 @@ Section Domain.
     | OWithColumn n => good_name n
     | OWithColumnRenamed o n => good_name n
     | OToDF _ => false
-    | ODrop _ | OFillna _ | ODropna | ODropDuplicates _ | OWhere _ | OOrderBy _ | OLimit | ODistinct => true
+    | ODrop _ | OFillna _ | ODropna | ODropDuplicates _ | OWhere _ | OOrderBy _ | OLimit | ODistinct
+    | OOrderByItems _ => true
+    | OJoinOn rn _ _ => forallb bare_unquoted rn
     | OGroupAgg keys al => forallb key_arg_ok keys && forallb bare_unquoted al
     | OAgg al => forallb good_name al
     | OJoin rn keys => forallb bare_unquoted rn && forallb bare_unquoted keys
@@ -69,7 +71,7 @@ Section Domain.
   (** * operations after which the names are provably Spark's (the recording alphabet + C01 steps) *)
   Definition sel_arg_ok (ns : list name) (a : selarg) : bool :=
     ref_ok (arg_ref a) && resolves norm ns (arg_ref a)
-    && match a with SStr x => plain x | SCol _ => true | SAlias _ al => good_name al end.
+    && match a with SStr x => plain x | SCol _ | SItem _ => true | SAlias _ al => good_name al end.
   Definition good_op (ns : list name) (o : op) : bool :=
     match o with
     | OSelect args => forallb (sel_arg_ok ns) args && nodupb (map norm (map arg_name args)) && negb (null args)
@@ -78,7 +80,7 @@ Section Domain.
         plain o && good_name n && forallb (fun x => same norm x o || negb (same norm x n)) ns
     | OAgg al => forallb good_name al && nodupb (map norm al)
     | OWhere v => resolves norm ns v
-    | OOrderBy vs => forallb (resolves norm ns) vs
+    | OOrderBy vs | OOrderByItems vs => forallb (resolves norm ns) vs
     | OLimit | ODistinct => true
     | _ => false
     end.
